@@ -51,7 +51,7 @@ def gen(rng, tier):
     for _ in range(100):
         ast = sg.gen_formula(rng, sg.GenCfg(vars=vars_, ops=ops, max_depth=rng.randint(3, 5), max_bound=rng.choice([2, 4]),
                                             p_reuse=rng.choice([0.1, 0.3]), p_loose=rng.choice([0.08, 0.25]), p_near=rng.choice([0.0, 0.0, 0.5])))
-        if sg.size(ast) >= 4 and sg.vars_of(ast):
+        if sg.size(ast) >= 4 and sg.vars_of(ast) and not (mode == 'on' and common.warmup_visible(ast)):
             break
     if rng.random() < 0.12:
         ast = sg.add_near_duplicate(rng, ast)      # two requirements that differ in a late decimal of one constant
@@ -73,7 +73,12 @@ def gen(rng, tier):
             top = al(top)
     extra = None
     if rng.random() < 0.3:
-        extra = ['q1', sg.gen_formula(rng, sg.GenCfg(vars=vars_, ops=ops, max_depth=3, max_bound=2))]
+        for _ in range(50):
+            extra = ['q1', sg.gen_formula(rng, sg.GenCfg(vars=vars_, ops=ops, max_depth=3, max_bound=2))]
+            if not (mode == 'on' and common.warmup_visible(extra[1])):
+                break
+        else:
+            extra = None
     pastify = mode == 'on' and (any(x[0] in sg.FUTURE_OPS for x in sg.walk(ast)) or
                                 (extra and any(x[0] in sg.FUTURE_OPS for x in sg.walk(extra[1]))) or rng.random() < 0.1)
     sc = {'kind': kind, 'mode': mode, 'vars': vars_, 'ast': ast, 'defs': defs, 'top': top, 'extra': extra, 'pastify': bool(pastify),
@@ -90,6 +95,15 @@ def gen(rng, tier):
             # None once; the application catches the exception and keeps monitoring with the same object
             sc['poison'] = {'at': rng.randrange(sc['n'] - 1)}
     return sc
+
+
+ENVELOPE_RULES = ['memory-past-above-delayed / partial-function-over-delayed (F08, F08b) for pastified specifications']
+
+
+def envelope(sc):
+    if not sc.get('pastify'):
+        return []
+    return common.warmup_visible(sc['ast']) + (common.warmup_visible(sc['extra'][1]) if sc.get('extra') else [])
 
 
 def names_of(sc):
